@@ -699,4 +699,76 @@ theorem inttCoreLazy_range (T : Tables) (K : Nat) (hn : T.n = 2 ^ K) (h6 : 6 * T
   obtain ⟨ok, hlt⟩ := invRec_ok T.rootsB T.q T.qinv h6 hm hr K 1 a ha
   exact ⟨ok, by rw [e]; exact invRec_eq_invRecN_of_ok _ _ _ _ _ _ ok, by rw [e]; exact hlt⟩
 
+/-- **intt_range, conjugate-invariant ring** (`inttCICoreLazy`): inverse network from node `2`
+(all values `< 2q`, no wrap), twist by `rootsB[1]` (no wrap, `< 4q`), and `p[0] ← CRed(2·p[0])`
+(`2·p[0] < 4q` does not wrap; the result is `< 3q`).  All outputs are `< 4q` — NOT the `[0, 2q−1]`
+of the Go comment on `inttCoreConjugateInvariantLazy`; the callers multiply by `N⁻¹` with
+`MRed`/`MRedLazy`, which restores `< q` / `< 2q` (`inttCI_lt`, `inttCILazy_lt`). -/
+theorem inttCICoreLazy_range (T : Tables) (K : Nat) (hn : T.n = 2 ^ K) (h6 : 6 * T.q ≤ W)
+    (hm : MontConst T.q T.qinv) (hr : RootsLt T.rootsB T.q)
+    (a : List Nat) (ha : ∀ x ∈ a, x < 2 * T.q) :
+    InvOK T.rootsB T.q T.qinv K 2 a
+    ∧ twist T T.rootsB (invRec T.rootsB T.q T.qinv K 2 a)
+        = twistN T T.rootsB (invRec T.rootsB T.q T.qinv K 2 a)
+    ∧ ∀ y ∈ inttCICoreLazy T a, y < 4 * T.q := by
+  have hq0 := hm.pos
+  obtain ⟨ok, hlt⟩ := invRec_ok T.rootsB T.q T.qinv h6 hm hr K 2 a ha
+  obtain ⟨et, ht⟩ := twist_ok T T.rootsB _ (2 * T.q) (by omega) hm hr hlt
+  refine ⟨ok, et, ?_⟩
+  intro y hy
+  unfold inttCICoreLazy at hy
+  rw [hn, log2n_two_pow] at hy
+  simp only [] at hy
+  rw [et] at hy
+  generalize hb : invRec T.rootsB T.q T.qinv K 2 a = b at *
+  cases hc : twistN T T.rootsB b with
+  | nil => rw [hc] at hy; simp at hy
+  | cons c0 rest =>
+    rw [hc] at hy ht
+    simp only [List.mem_cons] at hy
+    rcases hy with rfl | hy
+    · have hh : b.headD 0 < 2 * T.q := by
+        cases b with
+        | nil => simp; omega
+        | cons x _ => simp; exact hlt x (List.mem_cons_self ..)
+      generalize b.headD 0 = x at hh
+      have e : u64shl x 1 = 2 * x := by
+        simp only [u64shl]; rw [Nat.mod_eq_of_lt (by unfold W at *; omega)]; omega
+      rw [e]
+      unfold CRed
+      split
+      · rename_i hge
+        have hge' : T.q ≤ 2 * x := by simpa using hge
+        have hqW : T.q % W = T.q := Nat.mod_eq_of_lt (by unfold W at *; omega)
+        have e2 : 2 * x + W - T.q = (2 * x - T.q) + W := by omega
+        simp only [u64sub]
+        rw [hqW, e2, Nat.add_mod_right, Nat.mod_eq_of_lt (by unfold W at *; omega)]
+        omega
+      · omega
+    · have := ht y (List.mem_cons_of_mem _ hy); omega
+
+/-- `inttCI` (multiplication by `nInv` with `MRed`): outputs `< q`. -/
+theorem inttCI_lt (T : Tables) (K : Nat) (hn : T.n = 2 ^ K) (h6 : 6 * T.q ≤ W)
+    (hm : MontConst T.q T.qinv) (hr : RootsLt T.rootsB T.q) (hN : T.nInv < T.q)
+    (a : List Nat) (ha : ∀ x ∈ a, x < 2 * T.q) : ∀ y ∈ inttCI T a, y < T.q := by
+  intro y hy
+  unfold inttCI at hy
+  rw [List.mem_map] at hy
+  obtain ⟨x, hx, rfl⟩ := hy
+  have hx4 := (inttCICoreLazy_range T K hn h6 hm hr a ha).2.2 x hx
+  exact (MRed_spec x T.nInv T.q T.qinv (by unfold W at *; omega) hm
+    (by rw [Nat.mul_comm T.q W]; exact Nat.mul_lt_mul'' (by unfold W at *; omega) hN)).2
+
+/-- `inttCILazy` (multiplication by `nInv` with `MRedLazy`): outputs `< 2q`. -/
+theorem inttCILazy_lt (T : Tables) (K : Nat) (hn : T.n = 2 ^ K) (h6 : 6 * T.q ≤ W)
+    (hm : MontConst T.q T.qinv) (hr : RootsLt T.rootsB T.q) (hN : T.nInv < T.q)
+    (a : List Nat) (ha : ∀ x ∈ a, x < 2 * T.q) : ∀ y ∈ inttCILazy T a, y < 2 * T.q := by
+  intro y hy
+  unfold inttCILazy at hy
+  rw [List.mem_map] at hy
+  obtain ⟨x, hx, rfl⟩ := hy
+  have hx4 := (inttCICoreLazy_range T K hn h6 hm hr a ha).2.2 x hx
+  exact (MRedLazy_eq x T.nInv T.q T.qinv (by unfold W at *; omega) hm
+    (by rw [Nat.mul_comm T.q W]; exact Nat.mul_lt_mul'' (by unfold W at *; omega) hN)).2.1
+
 end Lattigo.NTT
